@@ -47,6 +47,12 @@ REGISTRY = {
                 trusted=['np.linalg.solve(Z, b) is a function of (Z, b), linear in b (LAPACK)',
                          'measure_time decorator returns the wrapped method\'s result unchanged',
                          'call graph of E4 over-approximates calls by method name']),
+    'C08': dict(module='contracts.C08', level='proof',
+                native=native_sweep('c08_loads.py', 'feed impedance rises by Z_L (interior, junction, end-1 and end-2 grounded feeds), loads add, zero load, RLC/trap/Laplace = circuit impedance over 12 decades, conductivity/resistivity, closed-form distributed load per pulse, eps_r = 1, sweep coherence', 30, 1500),
+                undecided=['a skin-effect load of unbounded conductivity changes nothing (a limit statement)'],
+                trusted=['Lean 4.33 + Mathlib kernel (lemmas/LoadSeries.lean); quick tier trusts the recorded hash of the last successful compilation',
+                         'scipy.special.jv, np.sqrt (complex), np.log as uninterpreted functions with the listed axioms',
+                         'np.linalg.solve solves the linear system (hypotheses hx, hx\' of the Lean lemma)']),
     'C09': dict(module='contracts.C09', native=native_c09, level='proof',
                 undecided=[], trusted=['sum over a permutation of a list = sum over the list (commutativity of +)']),
 }
